@@ -22,9 +22,10 @@ CONSTANTS MaxOps, Fix
 \* slice-typed fields of format.ColumnMetaData, how commit copies them and how
 \* format.ColumnMetaData.Reset treats the committed copy
 \* (the per-column KeyValueMetadata is never populated by the writer: an empty slice has nothing to clear)
-Fields == {"PathInSchema", "Encoding", "EncodingStats"}
-ClonedAtCommit(f) == f = "EncodingStats" \/ (Fix /\ f = "PathInSchema")
-ResetClearsElements(f) == f \in {"PathInSchema", "EncodingStats"}
+\* plus the row-group level SortingColumns slice, which aliases w.sortingColumns
+Fields == {"PathInSchema", "Encoding", "EncodingStats", "SortingColumns"}
+ClonedAtCommit(f) == f = "EncodingStats" \/ (Fix /\ f \in {"PathInSchema", "SortingColumns"})
+ResetClearsElements(f) == f \in {"PathInSchema", "EncodingStats", "SortingColumns"}
 \* fields the column writer mutates while writing (so they can be dirty)
 MutatedByWriting(f) == f \in {"Encoding", "EncodingStats"}
 \* fields ColumnWriter.reset restores itself
